@@ -107,6 +107,8 @@ def corpus():
     C.append(S('L03', 'tuple', [F('_0', "Cow<'a, str>", 0, b=True, long='cbor')], transparent=True, lifetimes=True, doc='transparent, long-form borrow'))
     # --- values that are nil without being spelled Option<..>, and wrappers around Option that are *not* nil ----------------------
     C.append(S('T00', 'tuple', [F('_0', 'Option<u8>', 0)], transparent=True, doc='transparent newtype around an Option'))
+    C.append(S('T01', 'tuple', [F('_0', 'u8', 0, tag=37)], transparent=True, doc='transparent newtype whose field carries a tag attribute (ignored by the derive)'))
+    C.append(S('T02', 'struct', [F('f00', 'String', 0, tag=9)], transparent=True, doc='transparent struct, tagged field'))
     C.append(S('N00', 'struct', [F('f00', 'u8', 0), F('f01', 'Box<Option<u8>>', 1), F('f02', 'Option<u8>', 2)], doc='boxed option (never nil) in the middle'))
     C.append(S('N01', 'struct', [F('f00', 'u8', 0), F('f01', 'Box<Option<u8>>', 1)], enc='map', doc='boxed option, map'))
     C.append(S('N02', 'struct', [F('f00', 'u8', 0), F('f01', 'Box<Option<u8>>', 1)], doc='boxed option, trailing'))
